@@ -255,15 +255,22 @@ func (m *Machine) conv(dst, src types.Type, x value) value {
 					return m.mkString(bs)
 				}
 				// []rune -> string
-				var out []byte
+				var out []*Term
 				for _, e := range xs {
 					t := e.(*Term)
 					if !t.IsConst() {
-						panic(m.unsupported("string([]rune) with symbolic runes"))
+						// symbolic rune: handled when it is ASCII on this path
+						if m.branch(tt.Bin(OpULt, t, tt.Const(t.Sort, 0x80)), "ascii rune") {
+							out = append(out, tt.Extract(t, 7, 0))
+							continue
+						}
+						panic(m.unsupported("string([]rune) with symbolic non-ASCII runes"))
 					}
-					out = utf8.AppendRune(out, rune(t.SVal()))
+					for _, b := range utf8.AppendRune(nil, rune(t.SVal())) {
+						out = append(out, tt.Const(BV(8), uint64(b)))
+					}
 				}
-				return string(out)
+				return m.mkString(out)
 			}
 		case *types.Slice:
 			return x
